@@ -3,6 +3,7 @@ package rules
 import (
 	"go/token"
 	"go/types"
+	"strings"
 
 	"conduitlint/kit"
 
@@ -757,6 +758,40 @@ func c01R8(c *Ctx) {
 			}
 			n += len(acks)
 			c.Dominated(r, "v1 nack handler: Source.Ack after DLQHandlerNode.Nack ok", asInstrs(acks), okGates(kit.CallsTo(fn, Set(dlqNack)), ""), "the DLQHandlerNode.Nack success edge")
+			// a failed DLQ hand-off always fails the nack: behind the failure edge of DLQHandlerNode.Nack
+			// every return hands back an error that is non-nil by construction (the DLQ error itself or an
+			// error constructor), never the result of something that may turn it into nil
+			for _, dn := range kit.CallsTo(fn, Set(dlqNack)) {
+				derr := kit.ErrResult(dn)
+				for _, e := range kit.FailEdges(dn) {
+					for _, ret := range kit.Returns(fn) {
+						if !kit.EdgeReaches(e, ret, nil) || !(ret.Block() == e.To || e.To.Dominates(ret.Block())) {
+							continue
+						}
+						v := kit.RetVal(ret, len(ret.Results)-1)
+						ok := v == derr
+						if u, isU := v.(*ssa.UnOp); isU && u.Op == token.MUL && derr != nil {
+							// load of the cell the DLQ error was stored to, not reassigned since
+							if du, isDU := derr.(*ssa.UnOp); isDU && du.X == u.X {
+								ok = true
+							}
+						}
+						if cl, isCall := v.(*ssa.Call); isCall {
+							if f := kit.CalleeOf(cl.Common()); f != nil && f.Pkg() != nil && (strings.HasSuffix(f.Pkg().Path(), "/cerrors") || strings.HasSuffix(f.Pkg().Path(), "/conduiterr") || f.Pkg().Path() == "errors" || f.Pkg().Path() == "fmt") {
+								ok = true
+							}
+							if cl.Call.Value != nil {
+								if ld, isLd := cl.Call.Value.(*ssa.UnOp); isLd {
+									if gl, isG := ld.X.(*ssa.Global); isG && gl.Pkg != nil && strings.HasSuffix(gl.Pkg.Pkg.Path(), "/cerrors") {
+										ok = true // cerrors.Errorf etc. are package-level function variables
+									}
+								}
+							}
+						}
+						c.R.Check(ok, r, "v1 nack handler: a failed DLQ hand-off fails the nack", c.Pos(posOf(ret)), "returns the DLQ error (wrapped)", "behind the failure edge of DLQHandlerNode.Nack the handler returns a value that is not the DLQ error or a freshly constructed error (e.g. it passes the error through a filter that can return nil): a record that was neither delivered nor dead-lettered would count as handled and a later ack moves the position past it", true)
+					}
+				}
+			}
 		}
 		if n == 0 {
 			c.R.Fail(r, "v1 nack handler: Source.Ack", c.Pos(reg.Pos()), "no Source.Ack call found in the nack handler")
